@@ -379,10 +379,81 @@ func genPair(t *rapid.T, k, maxLen int) (a, b []int) {
 	return a, b
 }
 
+// genBlockPair draws the shape real diffs have: two long versions of one
+// sequence that differ by a few BLOCK edits.  The base mixes fresh distinct
+// values with short runs of repeats; edits insert blocks whose sizes sit
+// around the constants optimised diff implementations use (8, 16, 32, 64),
+// delete a few elements, double an element, or swap neighbours.  One mode keeps
+// one side entirely free of duplicates.
+func genBlockPair(t *rapid.T) (a, b []int) {
+	n := rapid.SampledFrom([]int{40, 70, 100, 100, 150, 220}).Draw(t, "bpLen")
+	distinct := rapid.IntRange(0, 2).Draw(t, "bpDistinct") == 0
+	next := 1000
+	var base []int
+	for len(base) < n {
+		if !distinct && rapid.IntRange(0, 2).Draw(t, "bpRun") == 0 {
+			v := rapid.IntRange(0, 3).Draw(t, "bpRunVal")
+			for k := rapid.IntRange(1, 4).Draw(t, "bpRunLen"); k > 0; k-- {
+				base = append(base, v)
+			}
+		} else {
+			base = append(base, next)
+			next++
+		}
+	}
+	edit := func(label string, in []int) []int {
+		out := append([]int(nil), in...)
+		for e := rapid.IntRange(0, 3).Draw(t, label+"Edits"); e > 0; e-- {
+			i := rapid.IntRange(0, len(out)).Draw(t, label+"Pos")
+			switch rapid.IntRange(0, 5).Draw(t, label+"Kind") {
+			case 0, 1: // insert a block of fresh values
+				k := rapid.SampledFrom([]int{1, 2, 3, 7, 8, 9, 15, 16, 17, 30, 31, 32, 32, 33, 34, 63, 64, 65}).Draw(t, label+"Block")
+				blk := make([]int, k)
+				for j := range blk {
+					blk[j] = next
+					next++
+				}
+				out = append(out[:i], append(blk, out[i:]...)...)
+			case 2: // delete 1..3 elements
+				k := min(rapid.IntRange(1, 3).Draw(t, label+"Del"), len(out)-i)
+				out = append(out[:i], out[i+k:]...)
+			case 3: // double an element
+				if i < len(out) {
+					out = append(out[:i], append([]int{out[i]}, out[i:]...)...)
+				}
+			case 4: // swap neighbours
+				if i+1 < len(out) {
+					out[i], out[i+1] = out[i+1], out[i]
+				}
+			default: // a run of repeats right here
+				v := rapid.IntRange(0, 3).Draw(t, label+"RepVal")
+				k := rapid.IntRange(2, 6).Draw(t, label+"RepLen")
+				blk := make([]int, k)
+				for j := range blk {
+					blk[j] = v
+				}
+				out = append(out[:i], append(blk, out[i:]...)...)
+			}
+		}
+		return out
+	}
+	if distinct && rapid.Bool().Draw(t, "bpOneSidePure") {
+		return edit("bpa", base), base // b is duplicate-free, a may repeat elements of it
+	}
+	return edit("bpa", base), edit("bpb", base)
+}
+
 // ---------------------------------------------------------------------------
 // C11.
 
 func genEditCase(t *rapid.T) EditCase {
+	if rapid.IntRange(0, 2).Draw(t, "blockShape") == 0 {
+		a, b := genBlockPair(t)
+		if rapid.Bool().Draw(t, "blockSwap") {
+			a, b = b, a
+		}
+		return EditCase{Lhs: a, Rhs: b}
+	}
 	k := rapid.IntRange(2, 4).Draw(t, "alphabet")
 	a, b := genPair(t, k, 60)
 	if rapid.IntRange(0, 5).Draw(t, "shared") == 0 && len(a) > 0 {
@@ -460,6 +531,13 @@ func TestC11Alias(t *testing.T) {
 // C12: LCS.
 
 func genLCSCase(t *rapid.T) LCSCase {
+	if rapid.IntRange(0, 3).Draw(t, "blockShape") == 0 {
+		a, b := genBlockPair(t)
+		if rapid.Bool().Draw(t, "blockSwap") {
+			a, b = b, a
+		}
+		return LCSCase{As: a, Bs: b}
+	}
 	k := rapid.IntRange(1, 5).Draw(t, "alphabet")
 	maxLen := rapid.SampledFrom([]int{12, 60, 200, 200}).Draw(t, "maxLen")
 	a, b := genPair(t, k, maxLen)
